@@ -5,11 +5,10 @@ sys.path.insert(0, os.path.dirname(os.path.abspath(__file__)))
 from common import *
 
 ID = 'C06'
-THOROUGH_IS_QUICK = True     # the deeper bounds below were not run clean on the unchanged tree within the session (9-minute cap); the thorough command runs the quick bounds
 PKG = 'dependency'
 D = MOD + '/dependency.'
 ROOTS = [D + n for n in ('VerifC06Is', 'VerifC06Set', 'VerifC06Select', 'VerifC06Sat')]
-BOUNDS = {'quick': dict(NN=3, UV=2, RV=1, SET=2), 'thorough': dict(NN=4, UV=3, RV=1, SET=3)}
+BOUNDS = {'quick': dict(NN=3, UV=2, RV=1, SET=2), 'thorough': dict(NN=3, UV=3, RV=1, SET=3)}
 JOB_TIMEOUT_S = {'quick': 600, 'thorough': 3600}     # the largest sat job takes about 150 s of CPU on the unchanged tree; a table-driven rewrite of SatisfiedBy took more than 300
 NCH = b'0123456789.~:-a '
 META = dict(
@@ -17,7 +16,7 @@ META = dict(
                        '(*Dependency).GetSubstvars', 'VersionRelation.SatisfiedBy', 'version.Parse', 'version.Compare', 'version.verrevcmp'],
     stubs=['strings.* models as in C03'],
     bounds={'quick': 'architectures: the atomic all, or a triple of symbolic 3-byte components each either "any" or an arbitrary name other than any/all; lists of 0-2 entries with symbolic negation; dependencies of 2 relations x 3 alternatives with symbolic substvar/empty-list/negation flags, a multiarch qualifier, a version constraint and a build-profile restriction present on all / none / alternating alternatives (14 patterns), symbolic 1-byte cpu and qualifier names, package names over {a,b} (alternatives and relations may share a name); SatisfiedBy asked twice; (op, N, V): op any string of length 0-2 over {<,>,=,x}, N any string of length <= 3 over [0-9.~:-a ], V with any 64-bit epoch, upstream <= 2, revision <= 1',
-            'thorough': 'lists of 0-3 entries; N up to 4 characters, V upstream <= 3'},
+            'thorough': 'lists of 0-3 entries; V upstream <= 3 (N up to 4 characters ran for more than 30 minutes per job and is not registered)'},
     outside_claim=['"all" as one component of a mixed triple (excluded by the quantifier)', 'wildcard against wildcard (the statement is silent)', 'longer version numbers'],
     assumptions=['data independence: the code only tests components for equality with "any", "all" and with each other, so 3-byte symbolic names are exhaustive up to renaming',
                  'dependency values are shaped as the parser builds them (non-substvar alternatives carry a non-nil architecture set)'])
